@@ -161,6 +161,9 @@ def normalise(s, fmt, original=None):
         pp["initial_state"] = _norm_state(pp["initial_state"], initial=True)
         pp["goal"]["states"] = [_norm_state(x) for x in pp["goal"]["states"]]
         pp["goal"].pop("lanelets_type", None)
+        if pp["goal"].get("lanelets"):
+            # "no lanelets for this goal state" has two spellings (no entry / an empty list); the formats store neither
+            pp["goal"]["lanelets"] = {k: v for k, v in pp["goal"]["lanelets"].items() if v}
     if original is not None and original["scenario"].get("location") is None:
         sc.pop("location", None)
     if original is None and sc.get("location") is None:
